@@ -85,15 +85,17 @@ class CtrlHarness(Harness):
             self.hostB = SlottedHost(self, nslots, prefix="sb", share=self.hostA)
             self.j = self.inp("j", range(nslots).stop.bit_length(), const=True)
         names = ["in_gets_ack", "out_gets_data", "setup_ack", "corrupt_setup_silent", "data_stage_only",
-                 "zlp_stage", "status_out_ack", "other_ep_silent", "single_response"]
+                 "zlp_stage", "status_out_ack", "other_ep_silent", "single_response", "fresh_first_response"]
         if compose:
             names.append("fresh")
         self.v = {n: self.viol(n) for n in names}
-        cov = ["data_in", "status_zlp", "status_ack", "stall", "setup_ack"]
+        cov = ["data_in", "status_zlp", "status_ack", "stall", "setup_ack", "fresh_after_abandoned_data",
+               "fresh_after_abandoned_status"]
         if compose:
             cov += ["fresh_after_abandoned", "fresh_data"]
         self.c = {n: self.cover(n) for n in cov}
-        self.a = {n: self.assume(n) for n in ["legal", "no_hsk", "fresh_setup", "prefix_no_state_change"]}
+        self.a = {n: self.assume(n) for n in ["legal", "no_hsk", "no_set_address", "fresh_setup",
+                                              "prefix_no_state_change"]}
 
     def elaborate(self, platform):
         m = Module()
@@ -104,10 +106,11 @@ class CtrlHarness(Harness):
         hA.add_in_ack(m, "usb", spyA.is_data & ~uA.tx_valid)
         tie_device(m, uA, dA, hA)
         n = self.nslots
-        nohsk = Const(1)
+        nohsk, noaddr = Const(1), Const(1)
         for i in range(n):
             nohsk = nohsk & (hA.kind[i] != KIND_HSK)
-        m.d.comb += [self.a["legal"].eq(hA.legal), self.a["no_hsk"].eq(nohsk)]
+            noaddr = noaddr & ~((hA.kind[i] == KIND_SETUP) & (hA.data[i][5:7] == 0) & (hA.data[i][8:16] == 5))
+        m.d.comb += [self.a["legal"].eq(hA.legal), self.a["no_hsk"].eq(nohsk), self.a["no_set_address"].eq(noaddr)]
 
         # ---- ghost: control-transfer stage derived from the script alone
         sd = hA.cur_data
@@ -155,7 +158,60 @@ class CtrlHarness(Harness):
             self.v["other_ep_silent"].eq(judge & (~to_us | ~ep0) & sent),
             self.v["single_response"].eq(judge & (spyA.packets > 1)),
         ]
+        # ---- "every new SETUP starts a fresh transfer": the first IN transaction directly after a valid SETUP gets the
+        # answer a freshly reset device gives to that request, whatever came before.  Expected answers for well-formed
+        # requests, from USB 2.0 chapter 9 and the descriptor set given to the device (not from the handler's code):
+        prev_valid_setup = Signal()
+        g = Signal(64)                  # the 8 SETUP bytes of the previous slot
+        prior_setups = Signal(2)        # valid SETUPs seen so far, including the previous slot (saturating)
+        prior_in_data = Signal()        # some earlier transfer got IN data (its data stage was entered)
+        with m.If(judge):
+            m.d.usb += [prev_valid_setup.eq(valid_setup), g.eq(sd)]
+            with m.If(valid_setup & (prior_setups != 3)):
+                m.d.usb += prior_setups.eq(prior_setups + 1)
+            with m.If(in_slot & sent_data & (payload_len != 0)):
+                m.d.usb += prior_in_data.eq(1)
+        rt, req, wv, wl = g[0:8], g[8:16], g[16:32], g[48:64]
+        g_std, g_in = (g[5:7] == 0), g[7]
+        exp_kind = Signal(3)            # 0 unconstrained, 1 data (8 bytes), 2 data (2 bytes 00 00), 3 ZLP, 4 STALL
+        exp8 = Signal(64)
+        DEV8 = int.from_bytes(bytes.fromhex("1201000200000040"), "little")
+        CFG8 = int.from_bytes(bytes.fromhex("0902120001010080"), "little")
+        known_req = (req == 0) | (req == 1) | (req == 5) | (req == 6) | (req == 8) | (req == 9)
+        with m.If(~g_std):
+            m.d.comb += exp_kind.eq(4)                                   # nobody claims it: stalled
+        with m.Elif(~known_req):
+            m.d.comb += exp_kind.eq(4)                                   # unsupported standard request
+        with m.Elif((req == 0) & (rt == 0x80) & (wl == 2)):
+            m.d.comb += exp_kind.eq(2)                                   # GET_STATUS(device): 00 00
+        with m.Elif((req == 6) & (rt == 0x80) & (wv == 0x0100) & (wl >= 8)):
+            m.d.comb += [exp_kind.eq(1), exp8.eq(DEV8)]                  # GET_DESCRIPTOR(device), first packet
+        with m.Elif((req == 6) & (rt == 0x80) & (wv == 0x0200) & (wl >= 8)):
+            m.d.comb += [exp_kind.eq(1), exp8.eq(CFG8)]                  # GET_DESCRIPTOR(configuration), first packet
+        with m.Elif((req == 6) & (rt == 0x80) & (wv[8:16] > 3) & (wl != 0)):
+            m.d.comb += exp_kind.eq(4)                                   # descriptor type that does not exist
+        with m.Elif((req == 9) & (rt == 0x00) & (wl == 0)):
+            m.d.comb += exp_kind.eq(3)                                   # SET_CONFIGURATION: status ZLP
+        with m.Elif((req == 1) & (rt == 0x02) & (wv == 0) & (wl == 0)):
+            m.d.comb += exp_kind.eq(3)                                   # CLEAR_FEATURE(ENDPOINT_HALT): status ZLP
+        got8 = Cat(*spyA.bytes[0:8])
+        is_data1 = (spyA.pid == 0x4B)
+        fresh_bad = Signal()
+        with m.Switch(exp_kind):
+            with m.Case(1):
+                m.d.comb += fresh_bad.eq(~(is_data1 & (spyA.count == 11) & (got8 == exp8)))
+            with m.Case(2):
+                m.d.comb += fresh_bad.eq(~(is_data1 & (spyA.count == 5) & (got8[0:16] == 0)))
+            with m.Case(3):
+                m.d.comb += fresh_bad.eq(~(is_data1 & (spyA.count == 3)))
+            with m.Case(4):
+                m.d.comb += fresh_bad.eq(~sent_stall)
+        m.d.comb += self.v["fresh_first_response"].eq(judge & in_slot & prev_valid_setup & fresh_bad)
         m.d.comb += [
+            self.c["fresh_after_abandoned_data"].eq(judge & in_slot & prev_valid_setup & (exp_kind == 3) &
+                                                    (prior_setups >= 2) & prior_in_data & ~fresh_bad),
+            self.c["fresh_after_abandoned_status"].eq(judge & in_slot & prev_valid_setup & (exp_kind == 1) &
+                                                      (prior_setups >= 2) & ~fresh_bad),
             self.c["data_in"].eq(judge & in_slot & sent_data & (payload_len == 8)),
             self.c["status_zlp"].eq(judge & in_slot & sent_data & (payload_len == 0) & ~g_len_nz),
             self.c["status_ack"].eq(judge & out_slot & sent_ack & g_in_seen),
@@ -231,8 +287,13 @@ def queries(tier):
     qs = []
     n = 3 if tier == "quick" else 4
     K = 32 * n + 2
-    fc = lambda n=n: CtrlHarness(n, compose=True)
+    f1 = lambda n=n: CtrlHarness(n, compose=False)
+    fc = lambda: CtrlHarness(3, compose=True)
     hints = {
+        "fresh_after_abandoned_data": {"s0_kind": KIND_SETUP, "s0_data": GET_DESC_DEV, "s1_kind": KIND_IN, "s1_flag": 1,
+                                       "s2_kind": KIND_SETUP, "s2_data": SET_CONFIG_1, "s3_kind": KIND_IN},
+        "fresh_after_abandoned_status": {"s0_kind": KIND_SETUP, "s0_data": SET_CONFIG_1, "s1_kind": KIND_SETUP,
+                                         "s1_data": GET_DESC_DEV, "s2_kind": KIND_IN},
         "data_in": {"s0_kind": KIND_SETUP, "s0_data": GET_DESC_DEV, "s1_kind": KIND_IN},
         "status_zlp": {"s0_kind": KIND_SETUP, "s0_data": SET_CONFIG_1, "s1_kind": KIND_IN},
         "status_ack": {"s0_kind": KIND_SETUP, "s0_data": GET_STATUS, "s1_kind": KIND_IN, "s2_kind": KIND_OUT},
@@ -242,8 +303,15 @@ def queries(tier):
                                   "s1_data": GET_DESC_DEV, "s2_kind": KIND_IN, "j": 1},
         "fresh_data": {"s0_kind": KIND_NONE, "s1_kind": KIND_SETUP, "s1_data": GET_DESC_DEV, "s2_kind": KIND_IN, "j": 1},
     }
-    qs.append(Query(f"bmc_{n}slots", fc, K, timeout=2400, hints=hints,
-                    desc=f"{n} symbolic transactions, device A vs fresh device B, all direction rules"))
-    qs.append(Query("cosim", lambda: CtrlHarness(3, compose=True), 0, kind="cosim",
+    cov1 = ["data_in", "status_zlp", "status_ack", "stall", "setup_ack", "fresh_after_abandoned_status"]
+    if n >= 4:
+        cov1.append("fresh_after_abandoned_data")
+    qs.append(Query(f"bmc_{n}slots", f1, K, timeout=2400, hints=hints, covers=cov1,
+                    desc=f"{n} symbolic transactions: direction rules and fresh-transfer answers (explicit oracle)"))
+    if tier == "thorough":
+        qs.append(Query("bmc_selfcomposition_3slots", fc, 32 * 3 + 2, timeout=3000, hints=hints, required=False,
+                        asserts=["fresh"], covers=["fresh_after_abandoned", "fresh_data"],
+                        desc="best effort: device A (whole script) vs fresh device B (only the last transfer, only endpoint 0)"))
+    qs.append(Query("cosim", lambda: CtrlHarness(3, compose=False), 0, kind="cosim",
                     cosim_cycles=100 if tier == "quick" else 400))
     return qs
